@@ -8,5 +8,6 @@ def regen_all():
     os.makedirs(gen, exist_ok=True)
     out["go2v"] = vlib.run_tool("go2v", ["-repo", vlib.REPO, "-out", gen])
     out["lifecycle"] = vlib.run_tool("extract", ["-repo", vlib.REPO, "-out", gen, "-what", "lifecycle"])
+    out["itertests"] = vlib.run_tool("extract", ["-repo", vlib.REPO, "-out", gen, "-what", "itertests"])
     out["opcodes"] = vlib.run_tool("extract", ["-repo", vlib.REPO, "-out", gen, "-what", "opcodes"])
     return out
